@@ -189,6 +189,21 @@ impl Gen {
                         return;
                     }
                 }
+                if unhealthy && rng.chance(1, 3) {
+                    // an epoch that passes without any certificate although signers are registered for
+                    // every key: the epoch-gap test itself is what must stop the aggregator
+                    self.register_some(rng, true).await;
+                    self.w.epoch_up(1).await;
+                    self.w.tick().await;
+                    self.w.tick().await;
+                    self.register_some(rng, true).await;
+                    self.w.epoch_up(1).await;
+                    for _ in 0..4 {
+                        self.w.tick().await;
+                    }
+                    self.w.tags.insert("epoch-without-certificate".into());
+                    return;
+                }
                 let jump = if unhealthy && rng.chance(1, 2) { 2 } else { 1 };
                 self.w.epoch_up(jump).await;
                 self.w.tags.insert(format!("epoch-up-{}", jump));
